@@ -92,7 +92,7 @@ theorem bwdLoopSpec (L : List (List A)) (p : List A → Bool) (d : Int) (mk : In
     (hbody : ∀ c i g, 0 ≤ i → L[i.toNat]? = some g →
       body (mk c i) = if p g then .cont (mk (c - 1) i) else .brk (mk (c + d) i))
     (hpost : ∀ c i, post (mk c i) = .ok (mk c (i - 1)))
-    (c i : Int) (k : Nat) (hi : -1 ≤ i) (hlen : i < L.length) (hk : (L.take (i + 1).toNat).length < k) :
+    (c i : Int) (k : Nat) (hlen : i < L.length) (hk : (L.take (i + 1).toNat).length < k) :
     loopN cond body post k (mk c i) =
       .ok (mk (c - steps p (L.take (i + 1).toNat).reverse +
                 (if steps p (L.take (i + 1).toNat).reverse < (L.take (i + 1).toNat).reverse.length then d else 0))
@@ -131,7 +131,7 @@ theorem bwdLoopSpec (L : List (List A)) (p : List A → Bool) (d : Int) (mk : In
       rw [this]; exact hg.2
     have hge : i ≥ 0 := hi0
     by_cases hp : p g
-    · have := ih (c - 1) (i - 1) k' (by omega) (by omega) hrest' (by simp at hk' ⊢; omega)
+    · have := ih (c - 1) (i - 1) k' (by omega) hrest' (by simp at hk' ⊢; omega)
       simp only [loopN, hcond, hge, decide_true, hbody c i g hi0 hg.1, hp, if_true, hpost, this, steps, List.length_cons]
       congr 2
       · have := steps_le p rest'
